@@ -53,18 +53,18 @@ func (l *evLog) add(e connEv) {
 // bytePipe is one direction of the harness transport: an unbounded
 // in-memory byte queue. Write never blocks.
 type bytePipe struct {
-	mu       sync.Mutex
-	cond     *sync.Cond
-	buf      []byte
-	rd       int
-	written  int
-	taken    int
-	writes   []int
-	plan     []int // replay mode: fragment sizes of the coming reads
-	planned  bool
-	rng      *rand.Rand
-	log      *evLog
-	stalled  bool
+	mu        sync.Mutex
+	cond      *sync.Cond
+	buf       []byte
+	rd        int
+	written   int
+	taken     int
+	writes    []int
+	plan      []int // replay mode: fragment sizes of the coming reads
+	planned   bool
+	rng       *rand.Rand
+	log       *evLog
+	stalled   bool
 	unplanned int
 	overlong  int
 }
@@ -617,11 +617,111 @@ func c11Record(out *ndWriter, results *ndWriter, nsessions int, sd int64) {
 	}
 }
 
+// c11BufEnd: the whole stream is in the transport before the receiver starts, and the transport's first reads end a
+// few bytes short of (or exactly at, or just inside) the end of the connection's read buffer, so that the value at
+// the tail is split there.  Every value must still arrive, in order, however the reads are fragmented.
+func c11BufEnd(results *ndWriter, sd int64) {
+	idx := 0
+	for _, k := range []int{1, 2, 3, 5, 7, 8, 15, 16, 17, 0, 4097} {
+		for _, small := range []bool{true, false} {
+			rng := rand.New(rand.NewSource(sd*104729 + int64(idx)))
+			res := &Result{Case: idx, Nontrivial: true, Class: "buffer-end"}
+			idx++
+			ab, ba := newBytePipe(), newBytePipe()
+			S := p2p.NewConn(&duplex{r: ba, w: ab})
+			R := p2p.NewConn(&duplex{r: ab, w: ba})
+			rbuf := len(R.ReadBuf)
+			// small fixed-size values only, or mixed with data chunks
+			var ops []c11Op
+			total := 0
+			for total < 2*rbuf+rbuf/2 {
+				var op c11Op
+				if small {
+					op = c11Op{[]string{"label", "label", "u32", "u16", "byte"}[rng.Intn(5)], 0}
+				} else {
+					op = c11Script(rng, 1, false)[0]
+					if op.kind == "flush" || op.kind == "sizes" {
+						continue
+					}
+				}
+				ops = append(ops, op)
+				total += msgSize(op.kind, op.n)
+			}
+			vals := make([]*c11Val, len(ops))
+			for i, op := range ops {
+				vals[i] = mkVal(op.kind, op.n, uint64(sd)<<24+uint64(idx)<<16+uint64(i))
+			}
+			sendErr := make(chan error, 1)
+			go func() {
+				for _, v := range vals {
+					if err := v.send(S); err != nil {
+						sendErr <- err
+						return
+					}
+				}
+				sendErr <- S.Flush()
+			}()
+			if err := <-sendErr; err != nil {
+				res.viol("error:send", "buffer-end scenario: send: %v", err)
+				results.put(res)
+				continue
+			}
+			// the read plan: the first read stops k bytes before the end of the read buffer, then single bytes
+			// up to and across the end, then whatever is available
+			ab.mu.Lock()
+			ab.planned = true
+			ab.plan = []int{rbuf - k}
+			for i := 0; i < k+3 && k < 64; i++ {
+				ab.plan = append(ab.plan, 1)
+			}
+			ab.mu.Unlock()
+			done := make(chan string, 1)
+			go func() {
+				defer func() {
+					if r := recover(); r != nil {
+						done <- fmt.Sprintf("panic in receiver: %v", r)
+					}
+				}()
+				for i, v := range vals {
+					ok, what, err := v.recv(R)
+					if err != nil {
+						done <- fmt.Sprintf("receive #%d (%s,%d): %v", i, v.kind, v.n, err)
+						return
+					}
+					if !ok {
+						done <- fmt.Sprintf("receive #%d (%s,%d): %s", i, v.kind, v.n, what)
+						return
+					}
+				}
+				done <- ""
+			}()
+			select {
+			case msg := <-done:
+				if msg != "" {
+					res.viol("buffer-end:value", "first read ends %d bytes before the end of the %d-byte read buffer: %s", k, rbuf, msg)
+				}
+			case <-time.After(30 * time.Second):
+				res.viol("buffer-end:stall", "first read ends %d bytes before the end of the %d-byte read buffer: the receiver does not finish although all %d bytes are in the transport", k, rbuf, total)
+				ab.stall()
+			}
+			results.put(res)
+		}
+	}
+}
+
 func c11Main(args []string) error {
-	if len(args) < 3 {
-		return fmt.Errorf("usage: vh c11 replay|record in out [n]")
+	if len(args) < 2 || (len(args) < 3 && args[0] != "bufend") {
+		return fmt.Errorf("usage: vh c11 replay|record in out [n] | bufend out")
 	}
 	switch args[0] {
+	case "bufend":
+		out, err := newND(args[1])
+		if err != nil {
+			return err
+		}
+		defer out.close()
+		c11BufEnd(out, seed())
+		return nil
 	case "replay":
 		out, err := newND(args[2])
 		if err != nil {
